@@ -48,6 +48,8 @@ def check(ctx: Ctx) -> None:
     check_input_immutability(ctx, 'C12.d', [fn], floor=1)
     from ..idioms import check_input_typed_containers
     check_input_typed_containers(ctx, 'C12.f', [fn], floor=1)
+    from ..idioms import check_accumulators_initialised
+    check_accumulators_initialised(ctx, 'C12.g', [WF], floor=1)
     ctx.rule('C12.a', 'every noise/gain quotient of doWF is noiseVar / (Es * gain): Es enters exactly once (term normal forms)', floor=3)
     from .. import terms as T
     gains = {'vtChannels'}
